@@ -177,17 +177,12 @@ def mask_file(regionfile, infile, outfile, negate=False):
     except:  # TODO: figure out what error is being thrown
         wcs = pywcs.WCS(str(im[0].header), naxis=2)
 
-    if len(im[0].data.shape) > 2:
-        data = np.squeeze(im[0].data)
-    else:
-        data = im[0].data
-
-    # print(data.shape)
-    if len(data.shape) == 3:
-        for plane in range(data.shape[0]):
-            mask_plane(data[plane], wcs, region, negate)
-    else:
-        mask_plane(data, wcs, region, negate)
+    # mask every 2d plane (the last two axes) of the image/cube; the leading
+    # axes are left as they are so that a one-row or one-column image in a
+    # cube is not mistaken for a 2d image
+    data = im[0].data
+    for plane in np.ndindex(data.shape[:-2]):
+        mask_plane(data[plane], wcs, region, negate)
     im[0].data = data
     im.writeto(outfile, overwrite=True)
     logging.info("Wrote {0}".format(outfile))
